@@ -176,6 +176,7 @@ func runC03(c *Ctx) {
 	// header may declare 2^63 or more, which reads as a negative int64): no path of it turns into an unbounded copy.
 	c.rule("W8", "safeio.CopyNWithContext copies through io.CopyN with the count it was given on every path: no unbounded copy (io.Copy, CopyDataWithContext) is reachable in it, whatever the count", 1)
 	c.copyNBounded("W8")
+	c.c03EntriesAreWrittenFromScratch()
 	// W9: the limits apply whichever variant of the extraction is called
 	c.rule("W9", "every variant of the extraction (package-level function, method, with or without context) that is a one-line forwarder hands each of its parameters — the limits among them — to the call it forwards to, exactly once", 5)
 	c.forwardersKeepTheirArguments("W9", []string{fsPkgRel}, func(f *ssa.Function) bool { return strings.Contains(f.Name(), "nzip") },
@@ -1230,4 +1231,52 @@ func (c *Ctx) copyNBounded(rule string) {
 	})
 	c.check(bounded > 0 && unbounded == "", rule, fname(cn)+"/bounded-for-every-count", c.pos(cn.Pos()), "every copy of CopyNWithContext is io.CopyN with the count given (or io.Copy from a reader limited to it)",
 		"CopyNWithContext can copy through "+unbounded+": for some count (a negative one: what a declared size of 2^63 or more becomes) the whole stream is written — an entry whose header lies about its size lands on disk without any bound, per-file and total limits notwithstanding")
+}
+
+// c03EntriesAreWrittenFromScratch (W10): "at no moment is a single file … longer than the size its header declares,
+// written". The bytes of an entry are bounded by the copy (W8); the file they are written into holds nothing else only if
+// it is opened with truncation: over a file that already exists — an earlier extraction into the same destination (what
+// Fetch of the shared cache does), the same name twice in one archive — the entry's bytes land at the front of the old
+// content and the file stays as long as it was, beyond its header and beyond the limits.
+func (c *Ctx) c03EntriesAreWrittenFromScratch() {
+	c.rule("W10", "the file an entry is extracted into is opened with O_TRUNC (or created through a call that truncates): what is left on disk for an entry is what its header declares, not the tail of an older file", 1)
+	f := c.fnOpt(fsPkgRel, "(*VFS).unzipZippedFile")
+	if f == nil {
+		return
+	}
+	c.FuncsSeen[fname(f)] = true
+	n := 0
+	allInstrs(f, func(in ssa.Instruction) {
+		cl, ok := in.(*ssa.Call)
+		if !ok {
+			return
+		}
+		name, args, isFs := fsMethodCall(cl)
+		if !isFs {
+			return
+		}
+		switch name {
+		case "OpenFile":
+			if len(args) < 2 {
+				return
+			}
+			flag, isC := constInt(args[1])
+			if isC && flag&0x3 == 0 {
+				return // read-only
+			}
+			n++
+			key := fname(f) + "/entry-file-truncated"
+			if n > 1 {
+				key += "#" + strconv.Itoa(n)
+			}
+			c.check(isC && flag&0x200 != 0, "W10", key, c.ipos(cl), "the entry's file is opened for writing with O_TRUNC",
+				"the file an entry is written into is opened without O_TRUNC: where a file of that name exists already (a second extraction into the same destination, the same name twice in one archive) the entry's bytes overwrite its beginning and the rest stays — a 10-byte entry leaves a 4096-byte file, longer than its header declares and than the per-file and total limits allow, and the extraction reports success")
+		case "CreateFile", "Create":
+			n++
+			c.ok("W10", fname(f)+"/entry-file-truncated", c.ipos(cl), "the entry's file is created through a call that truncates")
+		}
+	})
+	if n == 0 {
+		c.undecided("W10", fname(f)+"/entry-file-truncated", c.pos(f.Pos()), "how unzipZippedFile opens the file of an entry was not recognised")
+	}
 }
